@@ -242,6 +242,65 @@ func newReadSession(e *env, c Case) *session {
 	return s
 }
 
+// ---------------------------------------------------------------- ReadSector at an unaligned offset
+
+// The client sends a read whose offset is not a multiple of the leaf size (the request validation
+// only wants offset+length aligned).  The reference host refuses it; a host can also answer with the
+// enclosing leaf-aligned range and its valid proof (fault resp.All:otherRange).
+var unalignedVariants = []readParams{
+	{0, 32, 32},
+	{1, 100, 28},
+	{2, 64*7 + 1, 64*3 - 1},
+	{3, proto4.SectorSize - 10, 10},
+}
+
+func newReadUnalignedSession(e *env, c Case) *session {
+	p := unalignedVariants[c.Variant%len(unalignedVariants)]
+	s := &session{e: e, c: c}
+	root := e.roots[p.sector]
+	truth := e.sectors[p.sector][p.offset : p.offset+p.length]
+	start, end := p.offset/proto4.LeafSize, (p.offset+p.length+proto4.LeafSize-1)/proto4.LeafSize
+	wide, proof := e.hostRead(p.sector, start*proto4.LeafSize, (end-start)*proto4.LeafSize)
+	lying := false
+	for _, f := range c.Faults {
+		if f.Msg == "resp" && f.Field == "All" && f.How == "otherRange" {
+			lying = true
+		}
+	}
+	s.steps = []stepDef{
+		{"resp", func() proto4.Object { return new(proto4.RPCReadSectorResponse) }},
+		{"data", nil},
+	}
+	s.rawLen = func() int { return 0 }
+	var buf bytes.Buffer
+	s.call = func(ctx context.Context) (any, error) {
+		return rhp4.RPCReadSector(ctx, e.net, e.prices, e.token(), &buf, root, p.offset, p.length)
+	}
+	s.synth = func(msg string, in inMsg) proto4.Object {
+		if msg == "resp" && lying {
+			return &proto4.RPCReadSectorResponse{Proof: proof, DataLength: uint64(len(wide))}
+		}
+		return nil
+	}
+	s.dataHook = func(raw []byte) []byte {
+		if lying {
+			return append([]byte(nil), wide...)
+		}
+		return raw
+	}
+	s.mutate = func(msg string, obj proto4.Object, raw *[]byte, f Fault) error {
+		if msg == "resp" && f.Field == "All" && f.How == "otherRange" {
+			return nil // done by synth: the honest host sent an error, not a response
+		}
+		return errUnknownFault
+	}
+	s.bound = func(any) (bool, map[string]bool) {
+		d := map[string]bool{"bytesEqualTruth": bytes.Equal(buf.Bytes(), truth), "deliveredRequestedLength": uint64(buf.Len()) == p.length}
+		return d["bytesEqualTruth"], d
+	}
+	return s
+}
+
 // ---------------------------------------------------------------- WriteSector
 
 var writeLengths = []uint64{192, 8192, proto4.SectorSize, 64}
@@ -842,6 +901,63 @@ func newFreeSession(e *env, c Case) *session {
 	return s
 }
 
+// ---------------------------------------------------------------- FreeSectors with an index out of range
+
+// The caller names a sector index the contract does not have.  The client sends the request
+// unchecked; the reference host refuses it; a host can also answer with a valid proof of the old
+// root for the in-range part and any new root (fault resp.All:otherRange).
+var freeOORVariants = [][]uint64{{9}, {5}, {2, 7}, {100, 101}}
+
+func newFreeOutOfRangeSession(e *env, c Case) *session {
+	indices := freeOORVariants[c.Variant%len(freeOORVariants)]
+	s := &session{e: e, c: c}
+	croots := cloneHashes(e.roots[:5])
+	e.normalize(croots)
+	old := e.contract
+	lying := false
+	for _, f := range c.Faults {
+		if f.Msg == "resp" && f.Field == "All" && f.How == "otherRange" {
+			lying = true
+		}
+	}
+	var sub, leaf []types.Hash256
+	func() {
+		defer func() { recover() }() // core's builder may itself choke on the indices
+		sub, leaf = proto4.BuildFreeSectorsProof(croots, normIndices(indices))
+	}()
+	newRoot := proto4.MetaRoot(croots[:4])
+	s.steps = []stepDef{
+		{"resp", func() proto4.Object { return new(proto4.RPCFreeSectorsResponse) }},
+		{"sig", func() proto4.Object { return new(proto4.RPCFreeSectorsThirdResponse) }},
+	}
+	s.call = func(ctx context.Context) (any, error) {
+		return rhp4.RPCFreeSectors(ctx, e.net, e.signer, e.cs, e.prices, old, indices)
+	}
+	s.synth = func(msg string, in inMsg) proto4.Object {
+		if !lying {
+			return nil
+		}
+		if msg == "resp" {
+			return &proto4.RPCFreeSectorsResponse{OldSubtreeHashes: sub, OldLeafHashes: leaf, NewMerkleRoot: newRoot}
+		}
+		if rev, _, err := proto4.ReviseForFreeSectors(old.Revision, e.prices, newRoot, len(normIndices(indices))); err == nil {
+			return &proto4.RPCFreeSectorsThirdResponse{HostSignature: s.hostSign(rev)}
+		}
+		return nil
+	}
+	s.mutate = func(msg string, obj proto4.Object, raw *[]byte, f Fault) error {
+		if msg == "resp" && f.Field == "All" && f.How == "otherRange" {
+			return nil // done by synth: the honest host sent an error, not a response
+		}
+		return errUnknownFault
+	}
+	s.bound = func(res any) (bool, map[string]bool) {
+		// no revision can be "the old root with the requested change applied": the change is not defined
+		return false, map[string]bool{"requestedChangeDefined": false}
+	}
+	return s
+}
+
 // ---------------------------------------------------------------- FundAccounts
 
 func newFundSession(e *env, c Case) *session {
@@ -1137,6 +1253,10 @@ func (e *env) newSession(c Case) (*session, error) {
 	switch c.RPC {
 	case "ReadSector":
 		return newReadSession(e, c), nil
+	case "ReadUnaligned":
+		return newReadUnalignedSession(e, c), nil
+	case "FreeOutOfRange":
+		return newFreeOutOfRangeSession(e, c), nil
 	case "WriteSector":
 		return newWriteSession(e, c), nil
 	case "VerifySector":
